@@ -743,4 +743,87 @@ theorem produce_head (name0 : Str) (style : Style) (hs : style ≠ .camelLower) 
     · exact (foldl_headInv _ style true _ _ hs ⟨by simp, prefixOf_head _ style hs⟩).2
   · exact (foldl_headInv _ style false _ _ hs ⟨by simp, by simp⟩).2
 
+/-! ### UpperCase / UpperUnderscores results contain no lower-case letter -/
+
+def NoLower (buf : Str) : Prop := ∀ c ∈ buf, isLowerA c = false
+
+theorem noLower_append {a b : Str} (ha : NoLower a) (hb : NoLower b) : NoLower (a ++ b) := by
+  intro c hc
+  rcases List.mem_append.1 hc with h | h
+  · exact ha c h
+  · exact hb c h
+
+theorem noLower_map_upper (w : Str) : NoLower (w.map toUpperA) := by
+  intro c hc
+  obtain ⟨x, _, rfl⟩ := List.mem_map.1 hc
+  exact toUpperA_not_lower x
+
+theorem noLower_95 : NoLower [95] := by
+  intro c hc; simp at hc; subst hc; decide
+
+theorem write_noLower (style : Style) (hs : style = .upperCase ∨ style = .upperUnderscores)
+    (buf w : Str) (h : NoLower buf) : NoLower (write style buf w) := by
+  rcases hs with rfl | rfl
+  · exact noLower_append h (noLower_map_upper w)
+  · unfold write
+    dsimp only
+    split
+    · exact noLower_append (noLower_append h noLower_95) (noLower_map_upper w)
+    · exact noLower_append h (noLower_map_upper w)
+
+theorem step_noLower (name : Str) (style : Style) (hs : style = .upperCase ∨ style = .upperUnderscores)
+    (q : Bool) (st : St) (ri : Nat × Nat) (h : NoLower st.buf) :
+    NoLower (step name style q st ri).buf := by
+  have hu : NoLower [toUpperA ri.1] := by
+    intro c hc; simp at hc; subst hc; exact toUpperA_not_lower _
+  have hcamel : (decide (style = .camelCase) || decide (style = .camelLower)) = false := by
+    rcases hs with rfl | rfl <;> decide
+  unfold step
+  dsimp only
+  split
+  · simp only [hcamel, Bool.false_and, Bool.false_eq_true, if_false]
+    refine noLower_append ?_ hu
+    have key : ∀ b : Bool, NoLower (if b = true then st.buf ++ [95] else st.buf) := by
+      intro b; cases b
+      · exact h
+      · exact noLower_append h noLower_95
+    exact key _
+  · split
+    · split
+      · exact noLower_append h noLower_95
+      · exact h
+    · split
+      · exact noLower_append h noLower_95
+      · exact write_noLower style hs _ _ h
+
+theorem foldl_noLower (name : Str) (style : Style) (hs : style = .upperCase ∨ style = .upperUnderscores)
+    (q : Bool) (l : List (Nat × Nat)) (st : St) (h : NoLower st.buf) :
+    NoLower (l.foldl (step name style q) st).buf := by
+  induction l generalizing st with
+  | nil => exact h
+  | cons x l ih => exact ih _ (step_noLower name style hs q st x h)
+
+theorem prefixOf_noLower (name : Str) (style : Style) (hs : style = .upperCase ∨ style = .upperUnderscores) :
+    NoLower (prefixOf name style) := by
+  unfold prefixOf
+  dsimp only
+  have hw := write_noLower style hs [] (cs ['c','h','a','r']) (by intro c hc; cases hc)
+  split
+  · split
+    · split
+      · exact noLower_append hw noLower_95
+      · exact hw
+    · intro c hc; cases hc
+  · intro c hc; cases hc
+
+theorem produce_noLower (name0 : Str) (style : Style) (hs : style = .upperCase ∨ style = .upperUnderscores) :
+    NoLower (produce name0 style) := by
+  unfold produce
+  split
+  · dsimp only
+    split
+    · intro c hc; simp at hc; rcases hc with rfl | rfl | rfl <;> decide
+    · exact foldl_noLower _ style hs true _ _ (prefixOf_noLower _ style hs)
+  · exact foldl_noLower _ style hs false _ _ (by intro c hc; cases hc)
+
 end TmVerif.Ident
